@@ -179,10 +179,35 @@ def fp_diff(a, b):
 # generation
 
 
+def tiny_long_slur(k, nm=None, slurs=True):
+    """a boundary score: a phrase slur that stays open over several hundred notes, with a short slur inside it late in
+    the phrase"""
+    nm = k.choice((20, 40)) if nm is None else nm
+    q = 4
+    L = 4 * q
+    notes = []
+    for m in range(nm):
+        for i in range(16):
+            notes.append({"id": "p1n%d" % (len(notes) + 1), "kind": "note", "t": m * L + i, "e": m * L + i + 1, "voice": 1, "staff": 1, "sym": {"type": "16th", "dots": 0}, "m": m, "g": None, "step": "CDEFGAB"[(i + m) % 7], "alter": None, "octave": 4})
+    n = len(notes)
+    a = n - k.choice((20, 60, 100))
+    part = {
+        "id": "P1", "name": "Part P1", "abbr": None, "qdivs": [[0, q]], "nstaves": 1, "end": nm * L,
+        "measures": [{"s": m * L, "e": (m + 1) * L, "number": m + 1, "name": str(m + 1)} for m in range(nm)],
+        "timesigs": [{"t": 0, "beats": 4, "beat_type": 4}], "keysigs": [{"t": 0, "fifths": 0, "mode": "major"}],
+        "clefs": [{"t": 0, "staff": 1, "sign": "G", "line": 2, "oct": 0}],
+        "notes": notes, "slurs": [{"start": "p1n1", "end": "p1n%d" % n}, {"start": "p1n%d" % a, "end": "p1n%d" % (a + 6)}] if slurs else [],
+        "tuplets": [], "dirs": [], "tempos": [], "repeats": [], "endings": [], "nav": [], "fermatas": [],
+    }
+    return {"id": None, "parts": [part], "groups": None}
+
+
 def generate(seed, tier, cfg):
     st = R.Streams(seed)
     k = st.knobs
     asc = gen.gen_score(st.workload, profile="full", size=gen.pick_size(tier, st.knobs))
+    if k.random() < 0.012:
+        asc = tiny_long_slur(k)
     if k.random() < 0.03:
         # boundary score: meters of half notes whose bars hold a (dotted, double-dotted) breve or a long
         from checks.c19 import tiny_breve
